@@ -73,6 +73,9 @@ pub enum Family {
     Zero,
     /// arbitrary bit patterns
     Bits,
+    /// a tight cluster away from the origin with about one outlier in a hundred: every split search separates a
+    /// handful of items from all the others (imbalance between the "retry" and the "give up" thresholds and beyond)
+    Cluster,
 }
 
 #[derive(Clone, Copy, Debug, PartialEq, Eq)]
@@ -584,6 +587,15 @@ impl<'p> Gen<'p> {
                     }
                 })
                 .collect(),
+            Family::Cluster => {
+                let base = &self.idx[i].base;
+                let v: Vec<f32> = if r.chance(0.012) {
+                    base.iter().map(|x| -3.0 * x + r.unit()).collect()
+                } else {
+                    base.iter().map(|x| 6.0 * x + 1.0e-3 * r.unit()).collect()
+                };
+                fit(v, dims)
+            }
             Family::Zero => {
                 let neg = r.chance(0.3);
                 (0..dims).map(|_| if neg && r.chance(0.5) { -0.0f32 } else { 0.0 }).collect()
@@ -1634,6 +1646,10 @@ impl<'p> Gen<'p> {
                         }
                         _ => {}
                     }
+                }
+                if first && self.idx[i].family == Family::Cluster {
+                    // a node of more than a hundred items is what the imbalance thresholds need
+                    k = k.max(110 + self.r.below(160) as usize);
                 }
                 let forced_count = if first { self.forced.first_items } else { None };
                 if let Some(n) = forced_count {
